@@ -4,5 +4,5 @@
 import sys
 sys.path[:0] = ['/repo' + "/pulser-core", '/repo' + "/pulser-simulation", "/verif"]
 from symx.replay import replay
-sys.exit(replay(check='checks.c01', kernel='vp', shape={'amp': 'const', 'det': 'const', 'max_amp': True, 'max_det': True, 'minavg': True, 'grid': 7, 'n': 4},
-                assignment={'max_amp': '0/1', 'max_det': 93676, 'min_avg_amp': '0/1', 'dur': 1, 'amp.v': '0/1', 'det.v': -93675}, label='vp:inside_is_accepted'))
+sys.exit(replay(check='checks.c01', kernel='vp', shape={'amp': 'const', 'det': 'const', 'max_amp': False, 'max_det': True, 'minavg': True, 'grid': 7, 'n': 3},
+                assignment={'max_det': 282736, 'min_avg_amp': '0/1', 'dur': 1, 'amp.v': '0/1', 'det.v': -282735}, label='vp:inside_is_accepted'))
